@@ -287,7 +287,10 @@ JRParseAst(e, r) ==
 JRParse(e) ==
   LET t == e.text IN
   \* ---- C17 / C06, for every recorded parse
-     (IF e.out = "err" THEN JErr(t, e.err) \cup Chk(e.err.kind # "MaxLengthError", "C17:kind-maxlength-from-range-parse") ELSE {})
+     (IF e.out = "err" THEN JErr(t, e.err) \cup Chk(e.err.kind # "MaxLengthError", "C17:kind-maxlength-from-range-parse")
+                            \* an empty or blank-only text has no valid comparator: if it is refused, then with that kind
+                            \cup Chk((\A i \in 1..Len(t) : t[i] \in {32, 9}) => e.err.kind = "NoValidRanges", "C17:kind-novalidranges")
+      ELSE {})
   \cup Chk(e.us <= 50000 + 100 * Len(t), "C06:time-budget")
   \cup (IF e.out = "ok" THEN Chk(e.fromstr_eq, "X:fromstr-agrees") ELSE {})
   \* ---- with a syntax tree given by the generator: C01, C03
